@@ -374,8 +374,9 @@ func enumC07(quick bool, fn func(cs c07case) bool) {
 		t := truthy(o.v)
 		exp := map[bool]string{true: "T\n", false: "F\n"}[t]
 		forms := []string{"if { out " + o.src + " } then { out T } else { out F }"}
-		if o.v.k != lStr {
-			// a bare number / boolean / null / comparison is an expression statement
+		if o.v.k != lStr && !strings.HasPrefix(o.src, "(") {
+			// a bare number / boolean / null is an expression statement (a statement starting with `(` is
+			// not: that is murex's string-quote command)
 			forms = append(forms, "if { "+o.src+" } then { out T } else { out F }")
 		}
 		for _, f := range forms {
@@ -419,8 +420,9 @@ func enumC07(quick bool, fn func(cs c07case) bool) {
 		for _, x := range exprs {
 			cs := c07case{sect: "exit", witness: fmt.Sprintf("sub-shell prints %q exits %d: %s", f.out, f.exit, x.src), src: "v = " + x.src,
 				expVals: []lval{ref.op(x.op, x.a, x.b)}, defVals: []lval{def.op(x.op, x.a, x.b)}, nontriv: nt, label: "exit " + x.ctx}
-			if x.ctx == "elvis" && f.out == "" {
-				// what an empty sub-shell yields as a value (null or empty string) is not part of the statement
+			if f.out == "" {
+				// what a sub-shell that prints nothing yields as a *value* (null, empty string, empty generic
+				// list) is not part of the statement; `if` and `!` above do cover the empty output
 				cs.expVals, cs.defVals = []lval{{soft: true}}, []lval{{soft: true}}
 			}
 			if !fn(cs) {
@@ -486,6 +488,10 @@ func resultClass(v g1util.Var) string {
 	return "other"
 }
 
+const andOrBudget = 60
+
+var andOrReported int
+
 func checkC07(c *vlib.Ctx, cs c07case, n int) {
 	src := strictPrefix(cs.strict) + cs.src
 	opt := &mx.Opt{Vars: cs.vars}
@@ -521,7 +527,7 @@ func checkC07(c *vlib.Ctx, cs c07case, n int) {
 	}
 	for _, e := range cs.expVals {
 		if e.soft {
-			c.Extra("not-asserted: ?: on a sub-shell value with non-zero exit / empty sub-shell (statement vs. documented ?: differ; observed "+resultClass(v)+")", 1)
+			c.Extra("not-asserted: sub-shell operand that fails under ?: (statement and documented ?: differ) or prints nothing (its value is not defined); observed "+resultClass(v), 1)
 			return
 		}
 		if e.undef {
@@ -541,7 +547,14 @@ func checkC07(c *vlib.Ctx, cs c07case, n int) {
 	if strings.Contains(cs.src, "&&") || strings.Contains(cs.src, "||") {
 		for _, e := range cs.defVals {
 			if ok, _ := matches(v, e); ok && !e.soft && !e.undef {
-				c.Violation("and-or-always-true", cs.witness, detail+" — the observed value is what results when && / || yield true whatever their operands")
+				// one defect, thousands of witnesses: report a bounded number per worker so that the
+				// framework's per-worker cap on recorded violations can never hide a different violation
+				if andOrReported < andOrBudget {
+					andOrReported++
+					c.Violation("and-or-always-true", cs.witness, detail+" — the observed value is what results when && / || yield true whatever their operands")
+				} else {
+					c.Extra("and-or-always-true: further witnesses of the same signature beyond the per-worker report budget", 1)
+				}
 				return
 			}
 		}
